@@ -594,6 +594,35 @@ fn finalize_failure<P: Prop>(prop: &P, choices: Vec<u64>, orig: Fail, runs: usiz
     }
 }
 
+/// Shrinks a failing case that was found outside `run_generated` (the coverage-guided engine of /verif/fuzz) and
+/// turns it into a `Failure` exactly as a generated run would.
+pub fn shrink_failure<P: Prop>(prop: &P, choices: Vec<u64>, f: Fail) -> Failure {
+    let (min, runs) = shrink(prop, choices, &f.signature);
+    finalize_failure(prop, min, f, runs)
+}
+
+/// Writes the replay file of a failure and returns its path (same format as `Report::finish`).
+pub fn write_replay(f: &Failure, seed: u64, tier: &str, engine: &str) -> String {
+    let h = hash_words(&f.choices);
+    let dir = format!("{}/replays", verif_dir());
+    let _ = std::fs::create_dir_all(&dir);
+    let path = format!("{dir}/{}-{}-{:016x}.json", f.property, f.part, h);
+    let body = json!({
+        "property": f.property, "part": f.part, "signature": f.signature, "message": f.message,
+        "choices": f.choices, "case": f.case, "shrink_runs": f.shrink_runs, "seed": seed, "tier": tier,
+        "found_by": engine,
+    });
+    std::fs::write(&path, serde_json::to_string_pretty(&body).unwrap()).expect("write replay");
+    path
+}
+
+/// `n` choice sequences exactly as `run_generated` draws them (seed corpus of the coverage-guided engine).
+pub fn generated_choices(width: usize, seed: u64, n: usize) -> Vec<Vec<u64>> {
+    let mut runner = runner_for(seed);
+    let strat = proptest::collection::vec(proptest::num::u64::ANY, width);
+    (0..n).map(|_| strat.new_tree(&mut runner).expect("generation cannot fail").current()).collect()
+}
+
 /// Runs an explicit list of choice sequences (used by exhaustive enumerators and corpus
 /// replays); `exhaustive` is what the caller asserts about the list.
 pub fn run_listed<P: Prop>(
@@ -681,6 +710,10 @@ pub fn run_listed<P: Prop>(
 }
 
 /// Re-executes one choice sequence (replay).
+pub fn run_outcome<P: Prop>(prop: &P, choices: &[u64]) -> Outcome {
+    run_guarded(prop, choices).0
+}
+
 pub fn run_one<P: Prop>(prop: &P, choices: &[u64]) -> (Outcome, Value) {
     let (out, case) = run_guarded(prop, choices);
     (out, case.map(|c| prop.describe(&c)).unwrap_or(Value::Null))
